@@ -156,6 +156,11 @@ type simschedState struct {
 	pctDepth   uint32
 	pctGen     uint32
 	pctK       [8]uint64 // change points, in yield sites
+	sdK        uint32 // site delays: a yield site whose call-stack hash % sdK == sdk defers the goroutine
+	sdk        uint32
+	sdLIFO     bool   // when only deferred goroutines are runnable: resume the one deferred last (else a random one)
+	sdSeq      uint32
+	sdCount    uint64 // deferrals
 	traceOn    bool   // record the call stack of every yield site (debugging)
 	ntrace     uint32
 	ndec       uint32 // decisions recorded / consumed
@@ -169,8 +174,9 @@ const simPCTTab = 1 << 15
 
 type simPCTEntry struct {
 	goid uint64
-	prio uint32
+	prio uint32 // 0: not assigned yet
 	gen  uint32
+	dfr  uint32 // 0: not deferred; else the sequence number of the deferral
 }
 
 var simPCT [simPCTTab]simPCTEntry
@@ -274,8 +280,9 @@ func simEnable(schedSeed, auxSeed uint64, yieldThr uint32) {
 	simsched.sel = simMix(auxSeed, 2)
 	simsched.mapr = simMix(auxSeed, 3)
 	simsched.yieldThr = yieldThr
+	simsched.pctGen++
+	simsched.sdSeq, simsched.sdCount = 0, 0
 	if simsched.pct {
-		simsched.pctGen++
 		steps := simsched.pctK[0]
 		if steps < 1 {
 			steps = 1
@@ -318,35 +325,96 @@ func simSetPCT(depth, steps uint32) {
 	}
 }
 
-// simPrio returns (assigning it on first sight) the PCT priority of gp.
-func simPrio(gp *g) uint32 {
+// simEnt returns the per-run scheduler record of gp (nil if the table is
+// crowded; such a goroutine simply takes no part in priorities/deferrals).
+func simEnt(gp *g) *simPCTEntry {
 	id := gp.goid
 	i := uint32(id*0x9e3779b97f4a7c15>>40) & (simPCTTab - 1)
 	for n := 0; n < 64; n++ {
 		e := &simPCT[(i+uint32(n))&(simPCTTab-1)]
 		if e.gen == simsched.pctGen && e.goid == id {
-			return e.prio
+			return e
 		}
 		if e.gen != simsched.pctGen {
-			e.gen, e.goid = simsched.pctGen, id
-			e.prio = simsched.pctDepth + 1 + uint32(simNext(&simsched.sched)>>34)
-			return e.prio
+			e.gen, e.goid, e.prio, e.dfr = simsched.pctGen, id, 0, 0
+			return e
 		}
 	}
-	return simsched.pctDepth + 1 + uint32(id*2654435761)>>2
+	return nil
+}
+
+// simPrio returns (assigning it on first sight) the PCT priority of gp.
+func simPrio(gp *g) uint32 {
+	e := simEnt(gp)
+	if e == nil {
+		return simsched.pctDepth + 1 + uint32(gp.goid*2654435761)>>2
+	}
+	if e.prio == 0 {
+		e.prio = simsched.pctDepth + 1 + uint32(simNext(&simsched.sched)>>34)
+	}
+	return e.prio
 }
 
 func simSetPrio(gp *g, prio uint32) {
-	simPrio(gp)
-	id := gp.goid
-	i := uint32(id*0x9e3779b97f4a7c15>>40) & (simPCTTab - 1)
-	for n := 0; n < 64; n++ {
-		e := &simPCT[(i+uint32(n))&(simPCTTab-1)]
-		if e.gen == simsched.pctGen && e.goid == id {
-			e.prio = prio
-			return
+	if e := simEnt(gp); e != nil {
+		e.prio = prio
+	}
+}
+
+// simSetSiteDelay selects site delays for the next simEnable..simDisable
+// window: every scheduling point is identified by a hash of the return
+// addresses of the innermost frames; a goroutine that reaches a point whose
+// hash % K == k is set aside and only resumes when every other goroutine of
+// the bubble is blocked or set aside as well ("this code location is slow in
+// this run"). It widens, for one run, the race window that starts at that
+// location, for every goroutine passing it. K == 0 switches it off.
+//
+//go:linkname simSetSiteDelay
+func simSetSiteDelay(K, k uint32, lifo bool) {
+	simsched.sdK, simsched.sdk, simsched.sdLIFO = K, k, lifo
+}
+
+// simOthers reports whether another goroutine of a bubble is runnable
+// (goroutines outside the bubble do not count: they come and go with what the
+// process did before, and are served first by simPick anyway).
+func simOthers(pp *p) bool {
+	if nx := pp.runnext; nx != 0 && nx.ptr().bubble != nil {
+		return true
+	}
+	h := atomic.Load(&pp.runqhead)
+	t := pp.runqtail
+	L := uint32(len(pp.runq))
+	for i := h; i != t; i++ {
+		if pp.runq[i%L].ptr().bubble != nil {
+			return true
 		}
 	}
+	if !sched.runq.empty() {
+		found := false
+		lock(&sched.lock)
+		for gq := sched.runq.head.ptr(); gq != nil; gq = gq.schedlink.ptr() {
+			if gq.bubble != nil {
+				found = true
+				break
+			}
+		}
+		unlock(&sched.lock)
+		return found
+	}
+	return false
+}
+
+func simSiteHash() uint32 {
+	var pcs [6]uintptr
+	n := fpTracebackPCs(unsafe.Pointer(getfp()), pcs[:])
+	h := uint64(14695981039346656037)
+	for i := 0; i < n; i++ {
+		h = (h ^ uint64(pcs[i])) * 1099511628211
+	}
+	h ^= h >> 29
+	h *= 0xbf58476d1ce4e5b9
+	h ^= h >> 32
+	return uint32(h)
 }
 
 // simSetPlayback arms scripted-decision playback for the next simEnable..
@@ -387,11 +455,15 @@ func simDisable() (picks, multi, yields, sites, hash, diverge, spins uint64) {
 	simsched.enabled = false
 	simsched.play = false
 	simsched.pct = false
+	simsched.sdK = 0
 	return simsched.picks, simsched.multi, simsched.yields, simsched.yieldSites, simsched.hash, simsched.diverge, simsched.spinSleeps
 }
 
 //go:linkname simIsEnabled
 func simIsEnabled() bool { return simsched.enabled }
+
+//go:linkname simDeferrals
+func simDeferrals() uint64 { return simsched.sdCount }
 
 // simDecide returns the next scheduling decision in [0,n). draw is the value
 // the seeded stream would produce. In recording mode draw is stored; in
@@ -482,28 +554,32 @@ func simYield() {
 			timeSleep(d)
 		}
 	}
-	if simsched.pct {
-		for i := uint32(0); i < simsched.pctDepth; i++ {
-			if simsched.yieldSites == simsched.pctK[i] {
-				simSetPrio(gp, simsched.pctDepth-i)
-			}
-		}
-		pp := mp.p.ptr()
-		if pp.runnext != 0 || pp.runqhead != pp.runqtail || !sched.runq.empty() {
-			simsched.yields++
-			mcall(gosched_m)
-		}
-		return
-	}
 	var d uint32
 	if simsched.play {
 		d = simDecide(0, 2)
 	} else {
-		if simsched.yieldThr == 0 {
-			return
+		others := simOthers(mp.p.ptr())
+		if simsched.sdK != 0 && others && simSiteHash()%simsched.sdK == simsched.sdk {
+			if e := simEnt(gp); e != nil {
+				simsched.sdSeq++
+				simsched.sdCount++
+				e.dfr = simsched.sdSeq
+				d = 1
+			}
 		}
-		if uint32(simNext(&simsched.sched)>>48) >= 65536-simsched.yieldThr {
-			d = 1
+		if simsched.pct {
+			for i := uint32(0); i < simsched.pctDepth; i++ {
+				if simsched.yieldSites == simsched.pctK[i] {
+					simSetPrio(gp, simsched.pctDepth-i)
+				}
+			}
+			if others {
+				d = 1
+			}
+		} else if d == 0 && simsched.yieldThr != 0 {
+			if uint32(simNext(&simsched.sched)>>48) >= 65536-simsched.yieldThr {
+				d = 1
+			}
 		}
 		simDecide(d, 2)
 	}
@@ -578,23 +654,64 @@ func simPick(pp *p) *g {
 		if nn > 255 {
 			nn = 255
 		}
-		if simsched.pct {
-			best := uint32(0)
-			for i := uint32(0); i < n; i++ {
-				if pr := simPrio(pp.runq[(h+i)%L].ptr()); pr > best {
-					best, k = pr, i
+		switch {
+		case simsched.play:
+			k = simDecide(0, nn)
+		case simsched.pct || simsched.sdK != 0:
+			// candidates: the goroutines that are not set aside; if there is
+			// none, one of those set aside resumes
+			var m, last, lastSeq uint32
+			for i := uint32(0); i < nn; i++ {
+				e := simEnt(pp.runq[(h+i)%L].ptr())
+				if e == nil || e.dfr == 0 {
+					m++
+				} else if e.dfr > lastSeq {
+					last, lastSeq = i, e.dfr
 				}
 			}
-		} else {
-			var draw uint32
-			if !simsched.play {
-				draw = simRandn(&simsched.sched, nn)
+			all := m == 0
+			if all {
+				m = nn
 			}
-			k = simDecide(draw, nn)
+			if simsched.pct {
+				best := uint32(0)
+				for i := uint32(0); i < nn; i++ {
+					gq := pp.runq[(h+i)%L].ptr()
+					if e := simEnt(gq); !all && e != nil && e.dfr != 0 {
+						continue
+					}
+					if pr := simPrio(gq); pr > best {
+						best, k = pr, i
+					}
+				}
+			} else if all && simsched.sdLIFO {
+				k = last
+			} else {
+				j := simRandn(&simsched.sched, m)
+				for i := uint32(0); i < nn; i++ {
+					e := simEnt(pp.runq[(h+i)%L].ptr())
+					if !all && e != nil && e.dfr != 0 {
+						continue
+					}
+					if j == 0 {
+						k = i
+						break
+					}
+					j--
+				}
+			}
+			simDecide(k, nn)
+		default:
+			k = simDecide(simRandn(&simsched.sched, nn), nn)
 		}
 		simsched.hash = (simsched.hash ^ (uint64(n)<<8 | uint64(k))) * 1099511628211
 	}
 	gp := pp.runq[(h+k)%L].ptr()
+	if simsched.sdK != 0 {
+		if e := simEnt(gp); e != nil {
+			e.dfr = 0
+		}
+	}
 	for j := h + k; j != h; j-- {
 		pp.runq[j%L] = pp.runq[(j-1)%L]
 	}
